@@ -720,6 +720,17 @@ func fltCompile(p *fltPrinter, e *fltExpr, useProj bool) (*fltCompiled, error) {
 	if err != nil {
 		return &fltCompiled{nil, text}, err
 	}
+	if h := len(q) + len(text); h%3 == 0 {
+		// an expression that is refused as a whole must leave the caller's filter as it was: a fixed
+		// list no result satisfies, followed by a field the parser rejects (unknown order, a fixed
+		// order on .config, .unit in a projection, an empty key)
+		bad := []string{`zz-absent@(nope),.name@bogus`, `zz-absent@(nope),.config@(a b)`, `zz-absent@(nope),.unit`, `.name@(nope),""`}[(h/3)%4]
+		var pp benchproc.ProjectionParser
+		if _, err := pp.Parse(bad, f); err == nil {
+			return &fltCompiled{nil, text + " + refused projection " + fmt.Sprintf("%q", bad)}, fmt.Errorf("projection %q was accepted", bad)
+		}
+		text += " + refused projection " + fmt.Sprintf("%q", bad)
+	}
 	for _, ins := range calls {
 		ps := p.projection(ins)
 		text += " + projection " + fmt.Sprintf("%q", ps)
